@@ -261,6 +261,18 @@ let print_outcome (id : string) (o : outcome) =
   | OutPanic w -> Printf.printf "%s\tPANIC\t%d\n" id (int_of_n w)
   | OutFuel -> Printf.printf "%s\tFUEL\n" id
 
+let style_name = function
+  | SText -> "text" | SEmphasis -> "emphasis" | SLiteral -> "literal" | SMetavar -> "metavar" | SInvalid -> "invalid"
+let block_name = function
+  | BHeader -> "header" | BSection2 -> "section2" | BSection3 -> "section3" | BItemTerm -> "itemterm"
+  | BItemBody -> "itembody" | BDefinitionList -> "definitionlist" | BBlock -> "block"
+  | BInlineBlock -> "inlineblock" | BTermRef -> "termref" | BMeta -> "meta" | BMono -> "mono"
+let string_of_doc (d : doc) : string =
+  "(doc" ^ String.concat "" (List.map (function
+      | TText (st, s) -> Printf.sprintf " (t %s %s)" (style_name st) (hex_of_bytes s)
+      | TStart b -> Printf.sprintf " (s %s)" (block_name b)
+      | TEnd b -> Printf.sprintf " (e %s)" (block_name b)) d) ^ ")"
+
 (* ------------------------------------------------------------------ cases *)
 let find_field (name : string) (fields : sexp list) : sexp list option =
   List.fold_left (fun acc f -> match f with L (A n :: rest) when n = name -> Some rest | _ -> acc) None fields
@@ -378,6 +390,13 @@ let run_case (line : string) =
             | PosWord w -> "(posword " ^ hex_of_bytes w ^ ")" in
           Printf.printf "%s\tTOKENS\t%s\t%s\n" id (String.concat " " (List.map show st.items))
             (match amb with Some _ -> "ambiguous" | None -> "-")
+        | [A "helpdoc"] ->
+          (match run_inner feat env o name argv with
+           | OutStdout (HHelp (path, i, m, detailed)) ->
+             (match render_help env path i m (info_meta i) true with
+              | Some d -> Printf.printf "%s\tHELPDOC\t%d\t%s\n" id (if detailed then 1 else 0) (string_of_doc d)
+              | None -> Printf.printf "%s\tHELPDOC\tNONE\n" id)
+           | other -> print_outcome id other)
         | [A "invariant"] -> Printf.printf "%s\tINVARIANT\t%b\n" id (invariant_ok (match o with Options (p, _) -> meta_of p))
         | _ -> Printf.printf "%s\tBADMODE\n" id)
      with Failure m -> Printf.printf "%s\tBADCASE\t%s\n" id m
